@@ -342,12 +342,56 @@ def c13(prop, tier):
                                           "the protocol models (Backtrack, RegexObject) are bound to the code by trace validation / transition replay"])
 
 
+def pike_stage(prop, tier, max_outputs=2):
+    """Long pumped inputs: the library's answers validated by TLC running the specification's Pike simulation (Trace_Pike)."""
+    count = {"n": 0}
+    q = tier == "quick"
+
+    def per_output(vh, work, out, i, fam):
+        if count["n"] >= max_outputs or fam in ("EXPAND", "COMPILE"):
+            return None
+        count["n"] += 1
+        tr, cs, rp = os.path.join(work, f"pike_{i}.ndjson"), os.path.join(work, f"pike_{i}.cases"), os.path.join(work, f"pike_{i}.json")
+        p = subprocess.run([vh, "piketrace", "-in", out, "-out", tr, "-cases", cs, "-report", rp, "-maxpat", "10" if q else "60",
+                            "-maxsyms", "700" if q else "4300"], capture_output=True, text=True, timeout=1800)
+        if p.returncode != 0:
+            raise Machinery("piketrace: " + p.stderr[-500:])
+        rep = vlib.read_report(rp)
+        r, ok, depth = validate_trace("Trace_Pike", tr, work, f"pike_{i}")
+        res = {"states": r.distinct, "transitions": r.generated, "traces": rep["traces"],
+               "info": {"long_input_searches": rep["traces"], "long_input_symbols": rep["events"]}}
+        if r.error or r.violation or not ok:
+            res["machinery"] = [f"Trace_Pike: {(r.error or r.violation or 'trace not consumed to the end')[:500]}"]
+            return res
+        cp, cf = os.path.join(work, f"pikec_{i}.json"), os.path.join(work, f"pikefail_{i}.ndjson")
+        p = subprocess.run([vh, "pikeconfirm", "-tlc", os.path.join(work, f"trace_pike_{i}.tlc"), "-cases", cs, "-syms", out, "-prop", prop,
+                            "-report", cp, "-fail", cf], capture_output=True, text=True, timeout=900)
+        if p.returncode != 0:
+            raise Machinery("pikeconfirm: " + p.stderr[-500:])
+        res["fail_path"] = cf
+        res["info"]["long_input_spec_gaps"] = vlib.read_report(cp).get("spec_gaps", 0)
+        return res
+    return per_output
+
+
+def refequiv_stage(tier):
+    q = tier == "quick"
+    fam = ["CAP", "G2a", "G2m", "REV"][vlib.seed() % 4]
+    nsh = {"CAP": 4, "G2a": 64, "G2m": 64, "REV": 8}[fam]
+    return tlc_model_stage("RefEquiv", "MC_RefEquiv", {"Family": fam, "Shard": vlib.seed() % min(nsh, 4), "NShards": nsh * (2 if q else 1),
+                                                        "Budget": 40 if q else 90, "LCap": 3},
+                           "SPECIFICATION Spec\nINVARIANT Equivalent\n", workers=6)
+
+
 def c_search(prop, tier):
     if prop == "C04":
         return run_search_family(prop, tier, prop, stages=iter_model_stages(tier), per_output=iter_trace_stage(prop),
                                  budget_scale=0.6 if tier == "quick" else 1.0)
     if prop == "C10":
-        return run_search_family(prop, tier, prop, stages=[object_stage(prop, tier)], budget_scale=0.6 if tier == "quick" else 1.0)
+        return run_search_family(prop, tier, prop, stages=[object_stage(prop, tier)], budget_scale=0.6 if tier == "quick" else 1.0,
+                                 per_output=pike_stage(prop, tier, 1))
+    if prop in ("C02", "C03"):
+        return run_search_family(prop, tier, prop, stages=[refequiv_stage(tier)], per_output=pike_stage(prop, tier))
     return run_search_family(prop, tier, prop)
 
 
